@@ -220,7 +220,9 @@ OnUnlinked(p, i) ==
     IF x.ph \notin {"att", "linked", "synced"} THEN Fail(p, "S6: unlinked twice")
     ELSE IF p.closed = "no" THEN Fail(p, "S6: unlinked although the link was not closed")
     ELSE IF p.closed = "unlinked" /\ Registered(x) /\ ~Complete(p, x, p.cpos)
-        THEN Fail(p, "S3: unlinked before all events of the lane were delivered")
+        THEN IF "F10b" \in p.enabled /\ p.kind = "value" /\ ~x.sync /\ Late(p, x)     \* KF F10b, see OnEvent
+               THEN Deviate([p EXCEPT !.cons[i].ph = "unlinked"], "F10b")
+               ELSE Fail(p, "S3: unlinked before all events of the lane were delivered")
     ELSE [p EXCEPT !.cons[i].ph = "unlinked"]
 
 OnEof(p, i) ==
